@@ -53,14 +53,17 @@ def pubKeyFromSig (sig hash : Bytes) : Res Bytes :=
 it: low s and recovery id below 4. -/
 def sigWellFormed (g : Sig65) : Bool := g.s ≤ halfN && g.recid < 4
 
-/-- `cipher.VerifyPubKeySignedHash`, in the code's order of checks -/
-def verifyPubKeySignedHash (pub sig hash : Bytes) : Res Unit :=
-  match recoverPubkey sig hash with
+/-- `cipher.VerifyPubKeySignedHash`, in the code's order of checks (`rec` = `RecoverPubkey(hash, sig)`) -/
+def verifyPubKeySignedHashWith (rec : Option Bytes) (pub sig : Bytes) : Res Unit :=
+  match rec with
   | none => .err (E "ErrInvalidSigPubKeyRecovery")
   | some p =>
     if p ≠ pub then .err (E "ErrPubKeyRecoverMismatch")
     else if !sigWellFormed (parseSig sig) then .err (E "ErrInvalidSigValidity")
     else .ok ()
+
+def verifyPubKeySignedHash (pub sig hash : Bytes) : Res Unit :=
+  verifyPubKeySignedHashWith (recoverPubkey sig hash) pub sig
 
 /-- `cipher.VerifySignatureRecoverPubKey` -/
 def verifySignatureRecoverPubKey (sig hash : Bytes) : Res Unit :=
